@@ -20,12 +20,15 @@ static PEAK: AtomicUsize = AtomicUsize::new(0);
 pub const MAX_SINGLE: usize = 1 << 30;
 /// live total above this is refused
 pub const MAX_LIVE: usize = 2 << 30;
+/// live-heap cap of the current case (a case may lower it: scripts that grow without bound are
+/// stopped at a small multiple of the judged bound instead of after minutes of copying)
+static LIVE_CAP: AtomicUsize = AtomicUsize::new(MAX_LIVE);
 
 unsafe impl GlobalAlloc for Counting {
     unsafe fn alloc(&self, l: Layout) -> *mut u8 {
         if ENABLED.load(Ordering::Relaxed) {
             let live = LIVE.load(Ordering::Relaxed);
-            if l.size() > MAX_SINGLE || live.saturating_add(l.size()) > MAX_LIVE {
+            if l.size() > MAX_SINGLE || live.saturating_add(l.size()) > LIVE_CAP.load(Ordering::Relaxed) {
                 return std::ptr::null_mut();
             }
             let now = LIVE.fetch_add(l.size(), Ordering::Relaxed) + l.size();
@@ -42,7 +45,7 @@ unsafe impl GlobalAlloc for Counting {
     unsafe fn realloc(&self, p: *mut u8, l: Layout, new_size: usize) -> *mut u8 {
         if ENABLED.load(Ordering::Relaxed) {
             let live = LIVE.load(Ordering::Relaxed);
-            if new_size > MAX_SINGLE || live.saturating_add(new_size.saturating_sub(l.size())) > MAX_LIVE {
+            if new_size > MAX_SINGLE || live.saturating_add(new_size.saturating_sub(l.size())) > LIVE_CAP.load(Ordering::Relaxed) {
                 return std::ptr::null_mut();
             }
             if new_size >= l.size() {
@@ -140,6 +143,7 @@ pub fn last_panic() -> String {
 pub fn worker_execute(case: &Value) -> Value {
     let kind = case["kind"].as_str().unwrap_or("");
     let input_len = case["input_len"].as_u64().unwrap_or(0) as usize;
+    LIVE_CAP.store(case["live_cap"].as_u64().map(|c| c as usize).unwrap_or(MAX_LIVE).min(MAX_LIVE), Ordering::SeqCst);
     let case2 = case.clone();
     let kind2 = kind.to_string();
     // big stack: stack use proportional to the input is documented behaviour
